@@ -36,6 +36,12 @@ FLAVOURS = {
     # strict ISO mode of the newest standard the compiler knows (__STRICT_ANSI__, no GNU extensions, C2x keywords) at the debugger-friendly -Og:
     # code under #if __STDC_VERSION__ / #ifdef __STRICT_ANSI__, and whatever a further optimisation level does differently
     'asan-c2x': {'cc': 'gcc', 'cflags': SAN.replace('-O1', '-Og') + ' -DNDEBUG', 'lib_cflags': '-std=c2x'},
+    # the C library's bsearch() replaced by five conforming strategies in rotation (pivot choice; first or last of several equal elements):
+    # the results must not depend on which libc the library is linked with
+    # (glibc's <stdlib.h> supplies an inline bsearch to optimised code; -D__NO_INLINE__ makes the library call the C library's, as it does
+    # at -O0/-Os and with every other libc)
+    'asan-bsearch': {'cc': 'gcc', 'cflags': SAN + ' -DNDEBUG', 'lib_cflags': '-D__NO_INLINE__', 'extra_src': ['pv_bsearch.c'], 'ldextra': '-Wl,--wrap=bsearch'},
+    'uchar-bsearch': {'cc': 'gcc', 'cflags': SAN + ' -DNDEBUG', 'lib_cflags': '-funsigned-char -D__NO_INLINE__', 'extra_src': ['pv_bsearch.c'], 'ldextra': '-Wl,--wrap=bsearch'},
     'asan-cp932': {'cc': 'gcc', 'cflags': SAN + ' -DNDEBUG', 'lib_cflags': '-fexec-charset=CP932'},
     'tsan':     {'cc': 'gcc', 'cflags': '-O1 -g -fsanitize=thread -DNDEBUG'},
     # libc entry points reachable from the library are interposed at link time (C11, C15, C18)
@@ -78,6 +84,7 @@ PROPS['C07'] = {
         {'name': 'sweep-asan', 'flavour': 'asan', 'driver': 'drv_c07', 'timeout': 1800},
              {'name': 'cp932', 'flavour': 'asan-cp932', 'driver': 'drv_c07', 'env': {'PV_SCALE': '10'}, 'shards': 6, 'timeout': 1800},
         {'name': 'stripe-clang', 'flavour': 'clang-asan', 'driver': 'drv_c07', 'env': {'PV_SCALE': '10'}, 'shards': 6, 'timeout': 1800},
+        {'name': 'uchar-bsearch', 'flavour': 'uchar-bsearch', 'driver': 'drv_c07', 'env': {'PV_SCALE': '10'}, 'shards': 6, 'timeout': 1800},
         {'name': 'selftest-dbg', 'flavour': 'asan-dbg', 'driver': 'drv_c07', 'env': {'PV_SCALE': '100'}, 'args': [], 'shards': 4,
          'tiers': ('thorough',)},
     ],
@@ -137,6 +144,7 @@ PROPS['C08'] = {
     'exhaustive_possible': True,
     'runs': [{'name': 'asan', 'flavour': 'asan', 'driver': 'drv_c08', 'timeout': 1800},
              {'name': 'uchar', 'flavour': 'uchar', 'driver': 'drv_c08', 'env': {'PV_SCALE': '10'}, 'shards': 6, 'timeout': 1800},
+             {'name': 'uchar-bsearch', 'flavour': 'uchar-bsearch', 'driver': 'drv_c08', 'env': {'PV_SCALE': '8'}, 'shards': 6, 'timeout': 1800},
              {'name': 'native', 'flavour': 'asan-native', 'driver': 'drv_c08', 'env': {'PV_SCALE': '10'}, 'shards': 6, 'timeout': 1800},
              # coverage-guided differential: libFuzzer mutates phrases, the target compares both decoders with the reference pipeline
              {'name': 'fuzz-model', 'kind': 'fuzz', 'flavour': 'fuzz', 'driver': 'fuzz_api', 'mode': 4, 'runs_quick': 25000, 'runs_thorough': 1500000}] +
@@ -162,7 +170,7 @@ MANIFEST_TEXT = {
             'text': 'Each API function x exit path x language runs on a pre-patterned stack owned by the driver; afterwards the dead stack is searched for secret/password/mask windows, phrase tokens and word-index runs, and every block reaching the injected free must be zero and covered by a logged injected-memzero call. A log-only memzero control run must find residue, otherwise the check is inconclusive (exit 2). The same needles are searched in the static storage of the program and in the thread-local/descriptor area of the monitored thread after it has exited. A further exit path feeds a valid phrase followed by blanks or short tokens up to and beyond the size of the internal buffer.',
             'note': _TB + 'Registers and memory owned by the dependencies are out of scope; observed for gcc -O0..-O3/-Os and clang -O2 on x86-64.'},
     'C17': {'technique': 'runtime monitoring: exact per-language bound from words harvested through the API + extremal witnesses under ASan (also assertion-enabled build)',
-            'text': 'The worst-case phrase length of every language (sum of per-position maxima over the admissible words, in internal/decoder/output form) is computed from the words the library itself emits and compared with POLYSEED_STR_SIZE of the header being compiled; extremal witness seeds (the 543-byte Korean phrase is reached) are encoded into an exact-size buffer under ASan and fed back to both decoders. Every fourth witness is encoded while the allocator refuses its next request.',
+            'text': 'The worst-case phrase length of every language (sum of per-position maxima over the admissible words, in internal/decoder/output form) is computed from the words the library itself emits and compared with POLYSEED_STR_SIZE of the header being compiled; extremal witness seeds (the 543-byte Korean phrase is reached) are encoded into an exact-size buffer under ASan and fed back to both decoders. Every fourth witness is encoded while the allocator refuses its next request. The library\'s own phrase buffer is judged by what the library itself says about it: a string handed to a normaliser from address p must fit the extent the library wipes at p through the injected memzero (an overflow inside a larger stack object is invisible to red-zone tools).',
             'note': _TB + 'The bound is exhaustive over words x positions x languages; witnesses are sampled.'},
     'C19': {'technique': 'runtime monitoring: differential transcripts of -fsigned-char vs -funsigned-char builds (ASan/UBSan) + model comparison',
             'text': 'One deterministic script (all forms of phrases in all languages, every word of every list, non-ASCII passwords, grammar strings) is executed on both builds; per-case transcript digests must be identical and equal the model where it is authoritative. A dedicated section places code points from the edges of the accent block (where sign extension of a char would matter) at the end of and inside Spanish/French tokens. A boundary section feeds non-ASCII strings whose decomposed form is size-7 ... size+8 bytes long (multi-byte characters at the end, so that the dependency cuts inside a character at every offset) as passwords and phrases.',
@@ -370,7 +378,7 @@ MANIFEST_TEXT['C20'] = {'technique': 'runtime monitoring: ThreadSanitizer build 
 # Configuration stripes: "which code is compiled" is an input of every property (DESIGN.md 2.9, lessons i and v).  Every functional driver
 # that does not need the libc interposition flavours also runs a thin stripe of its workload on: a library built with unsigned plain char,
 # a clang build, -march=native, MemorySanitizer, a non-UTF-8 execution charset, and the assertion-enabled build.
-_AXES = [('fortify', 'fortify', '8'), ('shortenum', 'asan-shortenum', '6'), ('nognu', 'clang-nognu', '6'), ('fs16', 'asan-fs16', '6'), ('uchar', 'uchar', '8'), ('clang', 'clang-asan', '8'), ('native', 'asan-native', '8'), ('msan', 'msan', '8'), ('cp932', 'asan-cp932', '5'), ('asan-dbg', 'asan-dbg', '6'), ('c2x', 'asan-c2x', '5')]
+_AXES = [('fortify', 'fortify', '8'), ('shortenum', 'asan-shortenum', '6'), ('nognu', 'clang-nognu', '6'), ('fs16', 'asan-fs16', '6'), ('uchar', 'uchar', '8'), ('clang', 'clang-asan', '8'), ('native', 'asan-native', '8'), ('msan', 'msan', '8'), ('cp932', 'asan-cp932', '5'), ('asan-dbg', 'asan-dbg', '6'), ('c2x', 'asan-c2x', '5'), ('bsearch', 'asan-bsearch', '6')]
 for _p in ('C01', 'C02', 'C03', 'C04', 'C05', 'C06', 'C07', 'C08', 'C09', 'C10', 'C12', 'C14', 'C17'):
     _runs = PROPS[_p]['runs']
     _drv = _runs[0]['driver']
@@ -384,3 +392,20 @@ for _p in ('C01', 'C02', 'C03', 'C04', 'C05', 'C06', 'C07', 'C08', 'C09', 'C10',
             if _p == 'C14':
                 _env['PV_SKIP_SECTIONS'] = 'huge'
         _runs.append({'name': 'cfg-' + _name, 'flavour': _fl, 'driver': _drv, 'env': _env, 'shards': 3, 'timeout': 1800})
+
+# Process phase (harness/pv_premain.c): one small run per check whose property speaks about what create/encode/decode/store/crypt return;
+# the first history of the process is executed from a constructor, before main() and before any constructor of the library
+for _p in ('C01', 'C03', 'C04', 'C06', 'C07', 'C12', 'C13'):
+    _runs = PROPS[_p]['runs']
+    for _fl in ('asan', 'plain-O3'):
+        _runs.append({'name': 'premain-' + _fl, 'flavour': _fl, 'driver': _runs[0]['driver'], 'env': {'PV_PREMAIN': '1', 'PV_SCALE': '1'}, 'shards': 1, 'timeout': 900})
+    PROPS[_p].setdefault('require', {})['premain.history_before_main_agrees'] = 2
+
+# minima for the axes added after the ninth and tenth waves
+PROPS['C08'].setdefault('require', {}).update({'tokens.many-marks.es.accepted': 500, 'tokens.many-marks.fr.accepted': 500, 'tokens.many-marks.en.rejected': 150})
+PROPS['C12'].setdefault('require', {}).update({'longpw.typed_3_times_longer_than_it_normalises': 100, 'longpw.typed_4_times_longer_than_it_normalises': 100})
+PROPS['C13'].setdefault('require', {}).update({'hugeop.status_equals_model': 2})
+PROPS['C14'].setdefault('require', {}).update({'huge.strings_whose_length_is_a_valid_phrase_modulo_2^32': 1, 'huge.kdf_password_equals_that_of_the_first_4000_bytes': 3})
+PROPS['C16'].setdefault('require', {}).update({'load.format_reason.footer': 8, 'load.format_reason.extra-byte': 8, 'load.format_reason.secret-excess-bits': 8})
+for _p in ('C07', 'C08'):
+    PROPS[_p].setdefault('require', {}).update({'bsearch.served_by.first-equal': 1000, 'bsearch.served_by.last-equal': 1000, 'bsearch.served_by.random-pivot': 1000})
